@@ -3,7 +3,7 @@
    Store typing Σ : cell ↦ dynamic type; every expression of static type t
    evaluates to a cell of dynamic type t; no run ends in EInternal/EHostCrash. *)
 From Coq Require Import ZArith NArith PArith List String Bool Floats FMapPositive Lia.
-From EvyV Require Import Base Num Ast Omap OmapProofs Sem Static.
+From EvyV Require Import Base Num Ast Omap OmapProofs Sem SemPure Static.
 Import ListNotations.
 Open Scope Z_scope.
 
@@ -1241,6 +1241,27 @@ Proof.
   eapply wp_mono; [eapply load_wp; eauto|]. cbv beta. intros v2 s2 [-> _]. reflexivity.
 Qed.
 
+(* the pure string and math built-ins of Sem.pure_builtin: their names, and that each has a
+   signature in the table *)
+Lemma pure_builtin_names name vals m : pure_builtin name vals = Some m ->
+  In name (map s_ ["upper"; "lower"; "trim"; "replace"; "index"; "split"; "floor"; "ceil"; "round";
+                   "pow"; "atan2"; "log"; "sin"; "cos"; "rand"; "rand1"; "hsl"]%string).
+Proof.
+  unfold pure_builtin. intros Hb.
+  repeat match type of Hb with
+  | (if name_is ?n ?lit then Some _ else _) = Some _ =>
+      let E := fresh "E" in
+      destruct (name_is n lit) eqn:E;
+      [unfold name_is in E; apply str_eqb_eq in E; subst n; simpl; tauto|clear E]
+  end.
+  discriminate.
+Qed.
+Lemma pure_builtin_sig name vals m : pure_builtin name vals = Some m -> builtin_sig name <> None.
+Proof.
+  intros Hb. apply pure_builtin_names in Hb. simpl in Hb.
+  repeat destruct Hb as [<-|Hb]; try contradiction; vm_compute; discriminate.
+Qed.
+
 Lemma builtin_sound P S G e s name vals m sg ts :
   builtin name e vals = Some m -> mem_str name s1_builtins = true -> builtin_sig name = Some sg ->
   sig_args_ok sg ts = true -> Forall2 (fun l t => sfind S l = Some t) vals ts ->
@@ -1340,11 +1361,14 @@ Proof.
       simpl in Hin. repeat destruct Hin as [<-|Hin]; try contradiction;
         vm_compute in Hsig; injection Hsig as <-; cbn [fs_ret];
         sig2 Hok HF; load_n; load_n; apply emit_none_bpost; auto. }
-    destruct (existsb (str_eqb name) gfx_str_names) eqn:E3; [|discriminate].
+    destruct (existsb (str_eqb name) gfx_str_names) eqn:E3.
     { injection Hb as <-. apply existsb_exists in E3 as (x & Hin & Hx). apply str_eqb_eq in Hx; subst x.
       simpl in Hin. repeat destruct Hin as [<-|Hin]; try contradiction;
         vm_compute in Hsig; injection Hsig as <-; cbn [fs_ret];
         sig1 Hok HF; load_s; apply emit_none_bpost; auto. }
+    (* the pure string and math built-ins are not in the stage-1 list *)
+    exfalso. apply pure_builtin_names in Hb. simpl in Hb.
+    repeat destruct Hb as [<-|Hb]; try contradiction; vm_compute in Hs1; discriminate Hs1.
 Qed.
 
 Lemma builtin_none name e vals : builtin name e vals = None -> mem_str name s1_builtins = false.
@@ -2300,7 +2324,7 @@ Proof.
   destruct (existsb (str_eqb name) gfx_xy_names) eqn:X2.
   { apply existsb_exists in X2 as (x & Hin & Hx). apply str_eqb_eq in Hx; subst x.
     simpl in Hin. repeat destruct Hin as [<-|Hin]; try contradiction; vm_compute; discriminate. }
-  destruct (existsb (str_eqb name) gfx_str_names) eqn:X3; [|discriminate].
+  destruct (existsb (str_eqb name) gfx_str_names) eqn:X3; [|eapply pure_builtin_sig; eauto].
   apply existsb_exists in X3 as (x & Hin & Hx). apply str_eqb_eq in Hx; subst x.
   simpl in Hin. repeat destruct Hin as [<-|Hin]; try contradiction; vm_compute; discriminate.
 Qed.
